@@ -7,8 +7,8 @@
 (*                blocked queue event was released) seen during this line                              *)
 (*   S[sh].sched  the time handed to loop.call_at for the show's pending timer (-1: none) - the        *)
 (*                NOMINAL time of the next step, whatever the lateness so far                          *)
-(*   S[sh].own    <<light, priority, start_time, colour>> of the light stack entries with the show's   *)
-(*                context key                                                                          *)
+(*   S[sh].own    <<light, priority, start_time, colour, dest_time>> of the light stack entries with   *)
+(*                the show's context key (colour -2: the fade-out entry left by a removal)             *)
 (*   lg[l]        logical colour of light l;   co  the coil is enabled                                *)
 (*   ref[sh][l]   colour of light l in the differential run of the same schedule without slot sh;      *)
 (*   refco[sh]    coil state in that run                                                               *)
@@ -24,7 +24,7 @@ TInit == /\ tid \in 1..Len(TraceLines) /\ l = 1
 Kinds == {"played", "looped", "completed", "stopped", "qdone"}
 Cnt(q) == [k \in Kinds |-> Count(q, k)]
 Proj(q) == [i \in DOMAIN q |-> <<q[i][1], q[i][2]>>]
-OwnSet(sh) == UNION {{<<x, e.prio, e.st, e.col>> : e \in {f \in lights[x] : f.key = sh}} : x \in Lights}
+OwnSet(sh) == UNION {{<<x, e.prio, e.st, e.col, e.until>> : e \in {f \in lights[x] : f.key = sh}} : x \in Lights}
 OwnOf(sh) == OwnSet(sh)
 \* slots that share no show_player key with another slot: removing their Play changes nothing else
 Alone(sh) == \A x \in Slots \ {sh} : C(x).key # C(sh).key
@@ -35,17 +35,18 @@ Obs(e) ==
           /\ Sched(st'[sh]) = e.S[sh].sched                                 \* OnSchedule (no drift)
           /\ OwnOf(sh)' = SeqToSet(e.S[sh].own)                             \* CleanAfterStop / start_time of effects
           \* "as if it had never run": once the show is over the devices equal those of the run without it
-          /\ (Alone(sh) /\ st'[sh].ph \in {"none", "done"}) => (e.ref[sh] = e.lg /\ e.refco[sh] = e.co)
-    /\ \A x \in Lights : Top(x)' = e.lg[x]
+          /\ (Alone(sh) /\ st'[sh].ph \in {"none", "done"} /\ Owned(sh)' = {} /\ \A x \in Lights : AtRest(x)')
+                => (e.ref[sh] = e.lg /\ e.refco[sh] = e.co)
+    /\ \A x \in Lights : AtRest(x)' => Top(x)' = e.lg[x]
     /\ (coil' # {}) = e.co
 Step(e) ==
     /\ \/ e.op = "play" /\ Play(e.sh)
-       \/ e.op = "stop" /\ Stop(e.sh)
-       \/ e.op = "pause" /\ Pause(e.sh)
-       \/ e.op = "resume" /\ Resume(e.sh)
-       \/ e.op = "advance" /\ Advance(e.sh, e.n)
+       \/ e.op = "stop" /\ (Stop(e.sh) \/ ZStop(e.sh))
+       \/ e.op = "pause" /\ (Pause(e.sh) \/ ZCtl(e.sh, [op |-> "pause", sh |-> e.sh]))
+       \/ e.op = "resume" /\ (Resume(e.sh) \/ ResumeArmed(e.sh) \/ ZCtl(e.sh, [op |-> "resume", sh |-> e.sh]))
+       \/ e.op = "advance" /\ (Advance(e.sh, e.n) \/ ZCtl(e.sh, [op |-> "advance", sh |-> e.sh, n |-> e.n]))
        \/ e.op = "advance_to" /\ AdvanceTo(e.sh, e.k)
-       \/ e.op = "step_back" /\ StepBack(e.sh, e.n)
+       \/ e.op = "step_back" /\ (StepBack(e.sh, e.n) \/ ZCtl(e.sh, [op |-> "step_back", sh |-> e.sh, n |-> e.n]))
        \/ e.op = "update" /\ Update(e.sh, e.sp)
        \/ e.op = "late" /\ Late(e.sh, e.d)
        \/ e.op = "adv" /\ Adv
